@@ -301,12 +301,10 @@ class RequestorModel:
         a = _assigns(fn, "rq_roles")
         if len(a) != 1 or norm(a[0].value) != "(rq_context.scu_role, rq_context.scp_role)":
             raise AnalysisError("negotiate_as_requestor: rq_roles shape")
-        tr = [t for t in walk_no_nested(fn) if isinstance(t, ast.Try) and any(norm(s).startswith("ac_roles = roles[") for s in t.body)]
-        if len(tr) != 1 or [norm(s) for s in tr[0].handlers[0].body] != ["ac_roles = (None, None)"]:
-            raise AnalysisError("negotiate_as_requestor: reply lookup shape")
         ifs = [i for i in walk_no_nested(fn) if isinstance(i, ast.If) and norm(i.test) == "ac_context.result == 0 and None not in ac_roles"]
         if len(ifs) != 1:
             raise AnalysisError("negotiate_as_requestor: role branch guard changed")
+        self.lookup_problem = self._reply_lookup(fn, ifs[0])
         d = {norm(s.targets[0]): s.value for s in ifs[0].body if isinstance(s, ast.Assign)}
         if norm(d.get("outcome")) != "SCP_SCU_ROLES[rq_roles][ac_roles]":
             raise AnalysisError("negotiate_as_requestor: outcome lookup shape")
@@ -320,6 +318,51 @@ class RequestorModel:
         self.applies_roles = any(s.startswith("(cx.scu_role, cx.scp_role) = rq_roles[") or s.startswith("cx.scu_role, cx.scp_role = rq_roles[") for s in src)
         self.normalises = "cx.scu_role = cx.scu_role or False" in src and "cx.scp_role = cx.scp_role or False" in src
         self.acse_fn = acse
+
+    @staticmethod
+    def _reply_lookup(fn, guard: ast.If):
+        """The acceptor's reply used for a context must be looked up for *that* context: on every path from
+        the start of a loop iteration to the guard, `ac_roles` is bound in that iteration, either to
+        roles[<this context's abstract syntax>] (also .get(.., (None, None))) or to (None, None).
+        -> None when that holds, else (node, text, witness path)"""
+        from .cfg import CFG, typestate, witness
+        from .loader import body_nodoc, strip_cast
+
+        cfg = CFG(fn, body=body_nodoc(fn), local_exc_only=True)
+
+        def kind(v):
+            v = strip_cast(v)
+            if isinstance(v, ast.Tuple) and len(v.elts) == 2 and all(isinstance(e, ast.Constant) and e.value is None for e in v.elts):
+                return "none"
+            key = None
+            if isinstance(v, ast.Subscript) and norm(v.value) == "roles":
+                key = v.slice
+            elif isinstance(v, ast.Call) and norm(v.func) == "roles.get" and len(v.args) == 2 and kind(v.args[1]) == "none":
+                key = v.args[0]
+            if key is not None and norm(strip_cast(key)) in ("context.abstract_syntax", "rq_context.abstract_syntax", "ac_context.abstract_syntax"):
+                return "own"
+            return "other"
+
+        def transfer(n, st):
+            if n.kind == "iter":
+                return [("stale", None)]
+            if n.kind == "stmt" and isinstance(n.ast, (ast.Assign, ast.AnnAssign)) and getattr(n.ast, "value", None) is not None:
+                t = n.ast.targets[0] if isinstance(n.ast, ast.Assign) else n.ast.target
+                if norm(t) == "ac_roles":
+                    k = kind(n.ast.value)
+                    normal = {l for _, l in n.succ if l != "exc"}
+                    return [("fresh" if k in ("own", "none") else "foreign", normal), (st, {"exc"})]
+            return [(st, None)]
+
+        ins, pred = typestate(cfg, "unbound", transfer)
+        g = [n for n in cfg.nodes if n.kind == "test" and n.ast is guard]
+        if len(g) != 1:
+            raise AnalysisError("negotiate_as_requestor: role guard not in the flow graph")
+        bad = sorted(s_ for s_ in ins.get(g[0].id, ()) if s_ != "fresh")
+        if not bad:
+            return None
+        text = {"stale": "the reply looked up for an earlier context of the loop is still in `ac_roles` on a path that reaches the role decision of this context", "unbound": "`ac_roles` may be unbound at the role decision", "foreign": "`ac_roles` is not looked up under this context's abstract syntax"}[bad[0]]
+        return guard, text, witness(cfg, pred, g[0], bad[0])
 
     def decide(self, table, proposal_local, result, reply):
         """proposal_local: None or (ps, pp) after the requestor's own None->False normalisation"""
